@@ -70,3 +70,9 @@ Example C13_nonvacuous :
     ([([x61], [x41; x43; x41; x2d]); ([x62], [x41; x47; x41; x2d])], [[[x61]; [x63]]; [[x62]]]) /\
   fst (compress rs) = [1; 2; 1].
 Proof. split; vm_compute; reflexivity. Qed.
+
+(* [columns] (computed by peeling the rows) is the list of the alignment's columns *)
+Theorem C13_columns_are_the_columns :
+  forall rs, columns rs = map (column rs) (seq 0 (width rs)).
+Proof. exact columns_spec. Qed.
+Print Assumptions C13_columns_are_the_columns.
